@@ -8,7 +8,7 @@ same file) is compared with the model; a disagreement is diagnosed by interventi
 (drop operations, retarget the read, drop spelling / stored-form features, move to the other
 namespace class) so that the signature names the mechanism.
 
-Workload: bounded-exhaustive histories over a 22-symbol concrete alphabet (length <=3 quick,
+Workload: bounded-exhaustive histories over a 28-symbol concrete alphabet (length <=3 quick,
 <=4 thorough) + random histories (length 1..40) over {0, Template, Module, Template talk,
 Wiktionary} x 4 base names x spelling variants.
 """
@@ -26,9 +26,10 @@ from vf.ref.c10_model import Model, NS, SKIP, agree, page_tuple, versions_in
 LEVEL = "exploration"
 RULE = ("case = one operation history over {add (canonical / prefix omitted / stored with '_'), overwrite, add redirect "
         "(with/without body; target canonical/bare/underscored; to absent, to self, chains), get_page, page_exists, "
-        "get_page_body, get_page_resolve_redirect, expand('{{T}}'), get_page(full title, None), commit, reopen (close + "
+        "get_page_body, get_page_resolve_redirect (each also with namespace_id=None on the full title under every spelling of "
+        "the prefix), expand('{{T}}'), get_page(full title, None), commit, reopen (close + "
         "Wtp(db_path)), peek (second Wtp on the same file)} with unique bodies '(vN)'; every history ends with a read sweep "
-        "over the keys it wrote. Part E: ALL histories of length 1..L (L=3 quick, 4 thorough) over a 22-symbol concrete "
+        "over the keys it wrote. Part E: ALL histories of length 1..L (L=3 quick, 4 thorough) over a 28-symbol concrete "
         "alphabet; part R: seeded random histories of length 1..40 over 5 namespaces x 4 base names x spelling variants "
         "(prefix canonical/omitted/lower/upper/mixed/alias/key, lower-case first letter, '_' for blanks, case-mangled second "
         "letter). distinct = distinct operation sequence; non-trivial = contains a read of a key after a write of that key")
@@ -40,6 +41,10 @@ ASSUMPTIONS = [
     "(Template: any spelling; main: '{{:X}}'; other namespaces: canonical key prefix)",
     "a second context on the same file is compared only for keys whose latest version was committed (uncommitted content is unspecified)",
     "histories share one database per ~25 histories; each history uses titles with a private numeric suffix, so histories cannot interact",
+    "namespace_id=None: results are compared only where the statement and a literal full-title match coincide (canonical "
+    "prefix, '_' or blanks, exact case of the name; no prefix = main namespace); for aliased / other-case prefixes, a "
+    "lower-case first letter outside main, and prefix-less redirect targets only 'page_exists == (get_page is not None)' "
+    "with the same arguments is asserted",
     "intervention used for diagnosis only: Wtp.get_page.cache_clear() when that attribute exists",
 ]
 WALL = {"quick": 600, "thorough": 3000}
@@ -54,7 +59,9 @@ def floors(tier):
     return {"oracle.read": 20000, "oracle.exists-agrees-with-lookup": 1000, "oracle.peek-key": 200,
             "counters.read_after_write_after_read": 500, "counters.op.reopen": 50, "counters.op.peek": 50,
             "counters.op.commit": 50, "counters.hist.exhaustive": 1000, "counters.hist.random": 500,
-            "counters.memo_hits": 1, "sets.spellings": 40, "sets.namespaces": 5,
+            "counters.memo_hits": 1, "oracle.exists-agrees-with-lookup.ns-None": 300, "counters.read_ns_none_compared": 1000,
+            "counters.read_ns_none.get": 200, "counters.read_ns_none.exists": 200, "counters.read_ns_none.body": 200,
+            "counters.read_ns_none.resolve": 200, "sets.spellings": 40, "sets.namespaces": 5,
             "anchors.Wtp.get_page": 10000, "anchors.Wtp.add_page": 5000, "anchors.Wtp.page_exists": 1000,
             "anchors.Wtp.get_page_body": 1000, "anchors.Wtp.get_page_resolve_redirect": 1000,
             "anchors.Wtp.create_db": 100, "anchors.Wtp.close_db_conn": 100, "nontrivial": 3000}
@@ -161,7 +168,8 @@ def expand_text(op, sfx):
 
 def spn(op):
     sp = op.get("sp", {})
-    return (sp.get("pf", "canon") if op.get("ns") else "omit", bool(sp.get("lc")), bool(sp.get("us")), bool(sp.get("cm")))
+    return (sp.get("pf", "canon") if op.get("ns") else "omit", bool(sp.get("lc")), bool(sp.get("us")), bool(sp.get("cm")),
+            bool(op.get("nn")))
 
 
 def sp_tag(op):
@@ -172,6 +180,8 @@ def sp_tag(op):
     for k, name in (("lc", "lcfirst"), ("us", "underscore"), ("cm", "case-mangled")):
         if sp.get(k):
             tags.append(name)
+    if op.get("nn"):
+        tags.append("namespace_id-None")
     return ",".join(tags) or "canonical"
 
 
@@ -238,7 +248,7 @@ def memo_clear(ctx):
 # executing one history against store + model
 
 def real_read(ctx, op, sfx):
-    o, ns = op["o"], op["ns"]
+    o, ns = op["o"], (None if op.get("nn") else op["ns"])
     if o == "expand":
         with cpu_guard(20):
             return versions_in(ctx.expand(expand_text(op, sfx)))
@@ -326,8 +336,9 @@ def execute(store, ops, sfx, nomemo=False, diagnose=False, obs=None, stats=None)
             if nomemo:
                 memo_clear(ctx)
             t = spelled(op, sfx)
-            ns = None if o == "getfull" else op["ns"]
-            exp = Model.expected(m.store, o, op["ns"], t)
+            ns = None if (o == "getfull" or op.get("nn")) else op["ns"]
+            mns = None if op.get("nn") else op["ns"]     # namespace id as passed (getfull: the model maps it)
+            exp = Model.expected(m.store, o, mns, t)
             if o == "expand" and op["ns"] == 4 and op.get("sp", {}).get("pf", "canon") == "canon":
                 exp = SKIP
             try:
@@ -347,14 +358,20 @@ def execute(store, ops, sfx, nomemo=False, diagnose=False, obs=None, stats=None)
             ok, fields = agree(o, got, exp)
             if o == "exists" and not op.get("dx"):
                 # existence checks agree with lookups (same arguments)
-                g2 = ctx.get_page(t, op["ns"]) is not None
+                g2 = ctx.get_page(t, mns) is not None
                 if obs is not None:
                     obs.check("exists-agrees-with-lookup")
+                    if mns is None:
+                        obs.check("exists-agrees-with-lookup.ns-None")
                 if g2 != got:
                     mism.append({"i": i, "o": "exists", "fields": ("exists!=lookup",), "stale": False,
                                  "got": "page_exists=%r, get_page is not None=%r" % (got, g2), "exp": "equal", "rel": True})
             key = (op["ns"], op["b"])
             if stats is not None and not op.get("dx"):
+                if op.get("nn"):
+                    stats["read_ns_none." + o] = stats.get("read_ns_none." + o, 0) + 1
+                    if exp is not SKIP:
+                        stats["read_ns_none_compared"] = stats.get("read_ns_none_compared", 0) + 1
                 ck = (t, ns)
                 if key in written:
                     nontrivial = True
@@ -365,7 +382,7 @@ def execute(store, ops, sfx, nomemo=False, diagnose=False, obs=None, stats=None)
             if not ok:
                 stale = False
                 for snap in m.snapshots:
-                    ok2, f2 = agree(o, got, Model.expected(snap, o, op["ns"], t))
+                    ok2, f2 = agree(o, got, Model.expected(snap, o, mns, t))
                     if ok2:
                         stale = True
                         break
@@ -374,7 +391,7 @@ def execute(store, ops, sfx, nomemo=False, diagnose=False, obs=None, stats=None)
                 if not stale and o in ("resolve", "body", "expand"):
                     # two lookups: the redirect and its target may show two different earlier states
                     states = m.snapshots + [m.store]
-                    stale = any(agree(o, got, Model.expected(s1, o, op["ns"], t, s2))[0]
+                    stale = any(agree(o, got, Model.expected(s1, o, mns, t, s2))[0]
                                 for s1 in states for s2 in states if s1 is not s2)
                 mm = {"i": i, "o": o, "fields": fields, "stale": stale, "got": repr(got), "exp": show(exp)}
                 mism.append(mm)
@@ -472,7 +489,7 @@ def shrink(ops, fails):
                 if o["o"] == "redir" and (o["ns"], o["b"]) in keys and (o["ns"], o["tb"]) not in keys:
                     keys.add((o["ns"], o["tb"]))
                     grew = True
-        if last["o"] == "getfull" or (last["o"] == "expand"):
+        if last["o"] == "getfull" or last["o"] == "expand" or last.get("nn"):
             keys |= {(n, b) for (n, b) in keys_of(ops) if b == last["b"]}
         cand = [o for o in ops[:-1] if "b" not in o or (o["ns"], o["b"]) in keys] + [last]
         if len(cand) < len(ops) and fails(cand):
@@ -527,7 +544,19 @@ def diagnose(lab, executed, mm):
     if mm.get("rel"):
         fails = lambda ops: lab.final(ops, False, want=True) is not None
         w = shrink(base, fails) if fails(base) else base
-        return "existence-check-disagrees-with-lookup(same arguments)", {"ops": w, "nomemo": False, "at": len(w) - 1}
+        tag = ""
+        if w[-1].get("nn"):
+            # does it need namespace_id=None?  (same title, namespace id given)
+            cand = w[:-1] + [{k: v for k, v in w[-1].items() if k != "nn"}]
+            if not fails(cand):
+                tag = "/namespace_id=None"
+                for k, dv in (("cm", False), ("lc", False), ("us", False), ("pf", "canon" if w[-1]["ns"] else "omit")):
+                    if w[-1].get("sp", {}).get(k, dv) != dv:
+                        cand = w[:-1] + [dict(w[-1], sp=dict(w[-1]["sp"], **{k: dv}))]
+                        if fails(cand):
+                            w = shrink(cand, fails)
+        return "existence-check-disagrees-with-lookup(same arguments)" + tag, \
+            {"ops": w, "nomemo": False, "at": len(w) - 1, "rel": 1}
     if mm.get("cured"):
         kind = "stale-read" if mm["stale"] else "corrupt-read:" + "+".join(mm["fields"])
         sig = kind + "/cured-by-get_page.cache_clear"
@@ -612,6 +641,8 @@ def diagnose(lab, executed, mm):
         for k, dv in (("cm", False), ("lc", False), ("us", False), ("pf", "canon" if w[-1]["ns"] else "omit")):
             if w[-1].get("sp", {}).get(k, dv) != dv:
                 w = attempt(w, lambda o, k=k, dv=dv: dict(o, sp=dict(o["sp"], **{k: dv})))
+        if w[-1].get("nn"):
+            w = attempt(w, lambda o: {k: v for k, v in o.items() if k != "nn"})
         w = ddmin(w, fails)
     # stored-form features of the writes
     for j in range(len(w) - 1):
@@ -680,6 +711,7 @@ def describe(lab, case):
     except Exception:
         return None
     mism = [mm for mm in mism if mm["i"] == case.get("at", len(ops) - 1)]
+    mism = [mm for mm in mism if bool(mm.get("rel")) == bool(case.get("rel"))] or mism
     if not mism:
         return None
     mm = mism[0]
@@ -697,7 +729,7 @@ def op_text(o, sfx):
     if "sp" in o:
         return "%s(%r, %s)" % ({"get": "get_page", "getfull": "get_page", "exists": "page_exists", "body": "get_page_body",
                                 "resolve": "get_page_resolve_redirect"}[o["o"]], spelled(o, sfx),
-                               None if o["o"] == "getfull" else o["ns"])
+                               None if (o["o"] == "getfull" or o.get("nn")) else o["ns"])
     return {"memo_clear": "get_page.cache_clear()", "commit": "db_conn.commit()", "reopen": "close_db_conn(); Wtp(db_path)",
             "peek": "read through a second Wtp(db_path)"}[o["o"]]
 
@@ -740,6 +772,13 @@ ALPHABET = [
     _r("get", M),
     _r("get", M, lc=True),
     _r("get", K, cm=True),
+    # namespace_id=None: the prefix of the full title alone selects the namespace
+    dict(_r("exists", K), nn=1),
+    dict(_r("exists", K, pf="lower", us=True), nn=1),      # result undetermined; existence == lookup is not
+    dict(_r("get", K, us=True), nn=1),
+    dict(_r("body", K), nn=1),
+    dict(_r("resolve", K), nn=1),
+    dict(_r("exists", M), nn=1),                            # no prefix, no namespace id: main namespace
     {"o": "commit"},
     {"o": "reopen"},
     {"o": "peek"},
@@ -783,7 +822,12 @@ def rand_read(rng, ns, b, sw=0):
                 d["sp"] = rand_sp(rng, ns, b)
             else:
                 d["sp"] = {"pf": "alias1" if ns == 4 else ("canon" if ns else "omit")}
-        if o == "exists" and ns == 0 and rng.random() < 0.4:
+        if o in ("get", "exists", "body", "resolve") and rng.random() < 0.22:
+            # namespace id None: full title, every spelling of the prefix (main namespace: bare title)
+            d["nn"] = 1
+            if ns and d["sp"].get("pf", "canon") == "omit":
+                d["sp"]["pf"] = rng.choice([p for p in pf_choices(ns) if p != "omit"])
+        elif o == "exists" and ns == 0 and rng.random() < 0.4:
             d["dflt"] = 1
     if sw:
         d["sw"] = 1
